@@ -1316,6 +1316,85 @@ def section_equivalence(inp):
     return {"ok": witness is None, "cases": cases, "witness": witness}
 
 
+def engine_equivalence(inp):
+    """property C07 natively: use_numba=True and use_numba=False give the same result tables (rtol 1e-9) on networks that
+    reach the branch conditions of the kernels: reverse flow, temperature differences along gas branches, zero-flow
+    branches, outer != inner diameter, heat exchanger against the flow, heat consumers, all friction models and modes"""
+    import pandapipes as pp
+    cases, witness = 0, None
+    zf_cases, zf_witness = 0, None
+
+    def gas():
+        net = pp.create_empty_network(fluid="hgas")
+        j = list(pp.create_junctions(net, 6, pn_bar=10., tfluid_k=[330., 320., 310., 300., 290., 285.], height_m=[0, 5, 2, 8, 1, 3]))
+        pp.create_ext_grid(net, j[0], p_bar=10., t_k=340.)
+        pp.create_pipe_from_parameters(net, j[0], j[1], 0.8, 150., k_mm=0.1, u_w_per_m2k=8., sections=3, text_k=280.)
+        pp.create_pipe_from_parameters(net, j[2], j[1], 0.6, 120., k_mm=0.2, u_w_per_m2k=8., text_k=280.)      # against the flow
+        pp.create_pipe_from_parameters(net, j[2], j[3], 0.5, 120., k_mm=0.2, u_w_per_m2k=8., sections=2, text_k=280.)
+        pp.create_pipe_from_parameters(net, j[4], j[3], 0.4, 100., k_mm=0.2, u_w_per_m2k=8., text_k=280.)      # against the flow
+        pp.create_pipe_from_parameters(net, j[4], j[5], 0.4, 100., k_mm=0.2, u_w_per_m2k=8., text_k=280.)      # dead end: zero flow
+        pp.create_sink(net, j[3], 0.05)
+        pp.create_sink(net, j[4], 0.08)
+        return net
+
+    def water():
+        net = pp.create_empty_network(fluid="water")
+        j = list(pp.create_junctions(net, 6, pn_bar=5., tfluid_k=330., height_m=[0, 3, 1, 0, 2, 0]))
+        pp.create_circ_pump_const_pressure(net, j[5], j[0], p_flow_bar=6., plift_bar=2., t_flow_k=370.)
+        pp.create_pipe_from_parameters(net, j[0], j[1], 0.5, 100., outer_diameter_mm=140., k_mm=0.1, u_w_per_m2k=15., sections=2, text_k=285.)
+        pp.create_heat_exchanger(net, j[2], j[1], 15000., 100.)                                             # drawn against the flow
+        pp.create_heat_consumer(net, j[2], j[3], qext_w=20000., deltat_k=15.)
+        pp.create_pipe_from_parameters(net, j[1], j[4], 0.3, 80., outer_diameter_mm=100., k_mm=0.1, u_w_per_m2k=15., text_k=285.)
+        pp.create_heat_consumer(net, j[4], j[3], qext_w=8000., controlled_mdot_kg_per_s=0.3)
+        pp.create_pipe_from_parameters(net, j[5], j[3], 0.5, 100., outer_diameter_mm=140., k_mm=0.1, u_w_per_m2k=15., text_k=285.)  # against the flow
+        return net
+
+    def res(net):
+        return {t: net[t].to_numpy(dtype=float, copy=True) for t in net.keys()
+                if isinstance(t, str) and t.startswith("res_") and hasattr(net[t], "to_numpy") and len(net[t])}
+
+    for tag, build, modes in (("gas", gas, ("hydraulics", "sequential", "bidirectional")), ("water", water, ("sequential", "bidirectional"))):
+        for mode in modes:
+            for friction in ("nikuradse", "swamee-jain", "colebrook"):
+                cases += 1
+                out = {}
+                for use_numba in (False, True):
+                    net = build()
+                    try:
+                        pp.pipeflow(net, mode=mode, friction_model=friction, use_numba=use_numba)
+                        out[use_numba] = res(net)
+                    except Exception as e:  # noqa
+                        out[use_numba] = "%s: %s" % (type(e).__name__, str(e)[:100])
+                a, b = out[False], out[True]
+                if isinstance(a, str) or isinstance(b, str):
+                    bad = None if (isinstance(a, str) and isinstance(b, str) and a.split(":")[0] == b.split(":")[0]) else \
+                        "numpy: %s / numba: %s" % (a if isinstance(a, str) else "results", b if isinstance(b, str) else "results")
+                else:
+                    diff = []
+                    for tn in a:
+                        x, y = a[tn].copy(), b[tn].copy()
+                        if x.shape == y.shape and tn in ("res_pipe", "res_valve"):
+                            # friction factor / Reynolds number reported on ZERO-FLOW rows are judged separately (finding F33)
+                            cols = list(net["res_" + tn[4:]].columns)
+                            zero = np.abs(np.nan_to_num(x[:, cols.index("mdot_from_kg_per_s")])) < 1e-12
+                            for cn in ("lambda", "reynolds"):
+                                if cn in cols and zero.any():
+                                    zf_cases += 1
+                                    cx, cy = x[zero, cols.index(cn)], y[zero, cols.index(cn)]
+                                    if not np.allclose(cx, cy, rtol=1e-9, atol=1e-11, equal_nan=True) and zf_witness is None:
+                                        zf_witness = {"net": tag, "mode": mode, "friction_model": friction, "column": cn,
+                                                      "numpy": cx.tolist(), "numba": cy.tolist()}
+                                    x[zero, cols.index(cn)] = 0.
+                                    y[zero, cols.index(cn)] = 0.
+                        if x.shape != y.shape or not np.allclose(x, y, rtol=1e-9, atol=1e-11, equal_nan=True):
+                            diff.append((tn, float(np.nanmax(np.abs(x - y))) if x.shape == y.shape else "shape"))
+                    bad = ("tables differ between the engines: %s" % diff) if diff else None
+                if bad and witness is None:
+                    witness = {"net": tag, "mode": mode, "friction_model": friction, "observed": bad}
+    return {"checks": {"engines-agree": {"ok": witness is None, "cases": cases, "witness": witness},
+                       "engines-agree/friction-factor-on-zero-flow-branches": {"ok": zf_witness is None, "cases": zf_cases, "witness": zf_witness}}}
+
+
 def main():
     inp = json.load(sys.stdin)
     fn = globals()[inp["what"]]
